@@ -80,6 +80,23 @@ theorem mem_erase (l : List (κ × α)) (k : κ) (p : κ × α) : p ∈ erase l 
       · left; exact h1
       · right; exact ih h1
 
+theorem get_erase_ne (l : List (κ × α)) (k k2 : κ) (hne : k2 ≠ k) : get (erase l k) k2 = get l k2 := by
+  induction l with
+  | nil => rfl
+  | cons hd t ih =>
+    obtain ⟨k', v'⟩ := hd
+    unfold erase
+    by_cases h1 : k = k'
+    · simp only [h1, if_true]
+      rw [get_cons]
+      have : k2 ≠ k' := by rw [← h1]; exact hne
+      simp [this]
+    · simp only [h1, if_false]
+      rw [get_cons, get_cons]
+      split
+      · rfl
+      · exact ih
+
 /-- a successful lookup returns a stored pair -/
 theorem get_some_mem (l : List (κ × α)) (k : κ) (v : α) : get l k = some v → (k, v) ∈ l := by
   induction l with
